@@ -15,6 +15,7 @@ import DadiVerif.Model.Godambe
    c19.cache <impl|id|ref> <obj:id:k;…>      -> ok <obj.k,obj.k,…> <table size>       (which stored spectrum each evaluation used)
    c19.chi2 <weights> <0|1 scalar> <xs> <cdf rows>  -> ok s <v> | ok a <list> | err <kind>
    c19.ll <model mask bits> <data mask bits> <model> <data> <log model> <gammaln(data+1)>  -> ok <ll> <number of entries summed>
+   c19.bootmask <mask bits of a bootstrap as given>   -> ok <mask bits as its likelihood sees it>
    Errors: `err zerostep` (a step is 0: the code divides by it), `err shape`. -/
 namespace DadiVerif.Driver.Godambe
 open DadiVerif DadiVerif.Proto DadiVerif.Godambe
@@ -58,7 +59,7 @@ def parseCacheOp (s : String) : Option (Nat × Nat × Nat) :=
 def handle (toks : List String) : Option String :=
   match toks with
   | ["c19.cfg"] =>
-      some s!"ok getHessShapeOk={Gen.Godambe.getHessShapeOk} getGradShapeOk={Gen.Godambe.getGradShapeOk} twoPt={Gen.Godambe.twoPtDerivTest} cacheModule={Gen.Godambe.cacheIsModuleLevel} holdsRef={Gen.Godambe.cacheKeyHoldsRef} keyComplete={Gen.Godambe.cacheKeyComplete} cachePattern={Gen.Godambe.cachePatternOk} godambeShape={flagsOk Gen.Godambe.godambeShape} statsShape={flagsOk Gen.Godambe.statsShape} multinom={flagsOk Gen.Godambe.multinomAug} chi2Scalar={optBool Gen.Godambe.chi2FlagWhenScalar} chi2Array={optBool Gen.Godambe.chi2FlagWhenArray} chi2Shape={Gen.Godambe.chi2ShapeOk} llMaskModel={Gen.Godambe.llMaskModel} llMaskLogDomain={Gen.Godambe.llMaskModelLogDomain} llMaskData={Gen.Godambe.llMaskData} llShape={Gen.Godambe.llShapeOk}"
+      some s!"ok getHessShapeOk={Gen.Godambe.getHessShapeOk} getGradShapeOk={Gen.Godambe.getGradShapeOk} twoPt={Gen.Godambe.twoPtDerivTest} cacheModule={Gen.Godambe.cacheIsModuleLevel} holdsRef={Gen.Godambe.cacheKeyHoldsRef} keyComplete={Gen.Godambe.cacheKeyComplete} cachePattern={Gen.Godambe.cachePatternOk} godambeShape={flagsOk Gen.Godambe.godambeShape} statsShape={flagsOk Gen.Godambe.statsShape} multinom={flagsOk Gen.Godambe.multinomAug} chi2Scalar={optBool Gen.Godambe.chi2FlagWhenScalar} chi2Array={optBool Gen.Godambe.chi2FlagWhenArray} chi2Shape={Gen.Godambe.chi2ShapeOk} llMaskModel={Gen.Godambe.llMaskModel} llMaskLogDomain={Gen.Godambe.llMaskModelLogDomain} llMaskData={Gen.Godambe.llMaskData} llShape={Gen.Godambe.llShapeOk} bootMaskKept={Gen.Godambe.bootMaskKept}"
   | ["c19.hess", poly, p0, e] => do
       let ms ← parsePoly poly; let p ← parseList p0; let e ← parseRat e
       let n := p.length
@@ -140,6 +141,9 @@ def handle (toks : List String) : Option String :=
         | .ok (.scalar v) => some ("ok s " ++ showRat v)
         | .ok (.array vs) => some ("ok a " ++ showList vs)
         | .error e => some ("err " ++ e)
+  | ["c19.bootmask", b] => do
+      let b ← parseBits b
+      some ("ok " ++ showBits (bootSeenMask b))
   | ["c19.ll", mb, db, m, d, lm, lg] => do
       let mb ← parseBits mb; let db ← parseBits db
       let m ← parseList m; let d ← parseList d; let lm ← parseList lm; let lg ← parseList lg
